@@ -856,6 +856,7 @@ func checkDelete(p *Program, pkg *packages.Package, fd *FuncDecl, r *Reporter) {
 	sf := p.SSAFunc(fd.Obj)
 	var del *ssa.Call
 	var orderStore *ssa.Store
+	var orderStores []*ssa.Store
 	for _, b := range sf.Blocks {
 		for _, ins := range b.Instrs {
 			switch x := ins.(type) {
@@ -866,8 +867,16 @@ func checkDelete(p *Program, pkg *packages.Package, fd *FuncDecl, r *Reporter) {
 			case *ssa.Store:
 				if k, _ := mapValWrite(x, pkg.Types); k == "*Order" {
 					orderStore = x
+					orderStores = append(orderStores, x)
 				}
 			}
+		}
+	}
+	if del != nil {
+		for i, st := range orderStores {
+			r.Check(instrDominates(del, st), fmt.Sprintf("%s#body:order-after-delete[%d]", fd.QName(), i+1), p.Rel(instrPos(st)),
+				"the key order changes only after the key was removed from the Go map",
+				"a path shortens *Order without delete(m.Pairs, key) having run: the key leaves the printed/iterated order but `has`, `len` and lookups still find it")
 		}
 	}
 	construct := fd.QName() + "#body"
